@@ -121,6 +121,15 @@ def out_of_domain_values(rng, row):
         if t is None:
             t = ["I", str(v)]
         out.append((v, t))
+    if row["kind"] == "DiameterURI":
+        # URIs that are right up to some point: acceptance must look at the whole text (and at nothing but the text)
+        base = "aaa://host.example.com"
+        for u in (base, base + ";transport=tcp", base + ";transport=tcp ", " " + base, base + ":70000", base + ":3868", base + "\r\n",
+                  base + "\x00", base + ";transport=tcp;protocol=diameter", base + ";transport=tcp;protocol=diameter;x=1",
+                  base + ";transport=tcp;transport=sctp", base + "/path", "aaa://" + "h" * 70 + ".example.com", "aaa://host..example.com",
+                  "AAA://host.example.com", base.upper()):
+            out.append((u, ["S", ",".join(str(ord(c)) for c in u)]))
+            out.append((u.encode(), ["B", u.encode().hex()]))
     # str values that are address literals: only meaningful (and only describable) for address kinds
     if row["kind"] in ("Address", "framedIp"):
         for lit in ("10.1.2.3", "255.255.255.255", "::1", "2001:db8::1", "::ffff:10.1.2.3"):
